@@ -2,7 +2,7 @@
    exactly when triggered; skip propagation; input = merge of the routed data predecessors.
    Only statements: each theorem is proved in Proofs/Dag*.v about the definitions of Model/Graph.v that
    Corr/C02.v evaluates (dag_report_values / dag_report_deps / dag_report_skip / dag_get, run_flat / run). *)
-From Eino Require Import Base.Util Model.Graph Proofs.DagChan Proofs.DagInv Proofs.DagLoop Proofs.DagExamples.
+From Eino Require Import Base.Util Model.Graph Model.DagValidate Proofs.DagChan Proofs.DagInv Proofs.DagLoop Proofs.DagTrig Proofs.DagTrigLoop Proofs.DagValidate Proofs.DagLegacy Proofs.DagExamples.
 Open Scope N_scope.
 
 (* ================= channel level (compose/dag.go) ================= *)
@@ -88,3 +88,166 @@ Example at_most_once_nonvacuous :
   /\ executed_paths [] (outcome_log value (tree_run [] [ex_dag] ex_input_c)) = [[2]; [4]; [5]; [6]; [7]]
   /\ executed_paths [] (outcome_log value (tree_run [] [ex_dag] ex_input_b)) = [[2]; [3]; [5]; [7]].
 Proof. vm_compute. auto. Qed.
+
+(* ---------------------------------------------------------------------------------------------------
+   Exactly when triggered; skip propagation.  Vocabulary (Proofs/DagTrigLoop.v, Proofs/DagTrig.v):
+     reach .. x s0 ls Rv   ls is a state of the loop of runner.run (run_flat / iterate of Model/Graph.v) started
+                           on input x, reached by iterating the model's own [step]; Rv is the record of the tasks
+                           resolved so far with their outputs ((START, x) first). Every outcome of run_flat is
+                           produced by such a state (dag_outcome_from_reachable_state).
+     executed ls t         (p ++ [t]) occurs in the execution log of the instance;  scheduled ls t: t is one of the
+                           tasks the next iteration submits.
+     triggered ls Rv t     t's channel is not skipped and EVERY control and data predecessor of t has been
+                           resolved or is skipped.
+     routed_c Rv q t       q was resolved with an output for which it routes control to t: t is a direct
+                           control successor of q or was selected by one of q's branches.
+   All statements hold for batch and eager (Workflow) mode, every schedule, every behaviour of node bodies,
+   branch tables and nested graphs; the only assumption on the graph is that node keys are distinct. *)
+
+Theorem dag_runs_iff_triggered : forall V St (ops : vops V) g,
+  g_mode g = Dag -> NoDup (map n_key (g_nodes g)) ->
+  forall exec sub sched p,
+  (forall i k v s, Forall (fun e : logentry V => fst e <> p) (outcome_log V (fst (sub i (p ++ [k]) v s)))) ->
+  forall x s0 ls Rv t,
+  reach V St ops g exec sub sched p x s0 ls Rv ->
+  (executed V St p ls t \/ scheduled V St ls t <-> triggered V St g ls Rv t).
+Proof. exact runs_iff_triggered. Qed.
+Print Assumptions dag_runs_iff_triggered.
+
+(* ... and then at least one control predecessor actually routed to it *)
+Theorem dag_routed_when_run : forall V St (ops : vops V) g,
+  g_mode g = Dag -> NoDup (map n_key (g_nodes g)) ->
+  forall exec sub sched p,
+  (forall i k v s, Forall (fun e : logentry V => fst e <> p) (outcome_log V (fst (sub i (p ++ [k]) v s)))) ->
+  forall x s0 ls Rv t,
+  reach V St ops g exec sub sched p x s0 ls Rv ->
+  executed V St p ls t \/ scheduled V St ls t -> cpreds g t <> [] ->
+  exists q, In q (cpreds g t) /\ routed_c V ops g Rv q t.
+Proof. exact routed_when_run. Qed.
+Print Assumptions dag_routed_when_run.
+
+(* otherwise it is skipped: all control predecessors finished or skipped and none routed to it *)
+Theorem dag_skipped_when_none_routed : forall V St (ops : vops V) g,
+  g_mode g = Dag -> NoDup (map n_key (g_nodes g)) ->
+  forall exec sub sched p,
+  (forall i k v s, Forall (fun e : logentry V => fst e <> p) (outcome_log V (fst (sub i (p ++ [k]) v s)))) ->
+  forall x s0 ls Rv t c,
+  reach V St ops g exec sub sched p x s0 ls Rv ->
+  alookup t (ls_chans V St ls) = Some c -> cpreds g t <> [] ->
+  (forall q, In q (cpreds g t) -> resolved V Rv q \/ skipped V (ls_chans V St ls) q) ->
+  (forall q, In q (cpreds g t) -> ~ routed_c V ops g Rv q t) ->
+  c_skipped V c = true.
+Proof. exact skipped_when_none_routed. Qed.
+Print Assumptions dag_skipped_when_none_routed.
+
+(* the skip propagates to the successors: all control predecessors skipped => skipped *)
+Theorem dag_skip_propagates : forall V St (ops : vops V) g,
+  g_mode g = Dag -> NoDup (map n_key (g_nodes g)) ->
+  forall exec sub sched p,
+  (forall i k v s, Forall (fun e : logentry V => fst e <> p) (outcome_log V (fst (sub i (p ++ [k]) v s)))) ->
+  forall x s0 ls Rv t c,
+  reach V St ops g exec sub sched p x s0 ls Rv ->
+  alookup t (ls_chans V St ls) = Some c -> cpreds g t <> [] ->
+  (forall q, In q (cpreds g t) -> skipped V (ls_chans V St ls) q) ->
+  c_skipped V c = true.
+Proof. exact skip_propagates. Qed.
+Print Assumptions dag_skip_propagates.
+
+Theorem dag_skipped_never_runs : forall V St (ops : vops V) g,
+  g_mode g = Dag -> NoDup (map n_key (g_nodes g)) ->
+  forall exec sub sched p,
+  (forall i k v s, Forall (fun e : logentry V => fst e <> p) (outcome_log V (fst (sub i (p ++ [k]) v s)))) ->
+  forall x s0 ls Rv t,
+  reach V St ops g exec sub sched p x s0 ls Rv ->
+  skipped V (ls_chans V St ls) t -> ~ (executed V St p ls t \/ scheduled V St ls t).
+Proof. exact skipped_never_runs. Qed.
+Print Assumptions dag_skipped_never_runs.
+
+(* F-C02 (fixed in /repo 91b08ee): a node that no edge or branch leads to is skipped from the start *)
+Theorem dag_orphan_skipped : forall V St (ops : vops V) g,
+  g_mode g = Dag -> NoDup (map n_key (g_nodes g)) ->
+  forall exec sub sched p,
+  (forall i k v s, Forall (fun e : logentry V => fst e <> p) (outcome_log V (fst (sub i (p ++ [k]) v s)))) ->
+  forall x s0 ls Rv t c,
+  reach V St ops g exec sub sched p x s0 ls Rv ->
+  alookup t (ls_chans V St ls) = Some c -> t <> kEND ->
+  cpreds g t = [] -> dpreds g t = [] -> c_skipped V c = true.
+Proof. exact orphan_skipped. Qed.
+Print Assumptions dag_orphan_skipped.
+
+(* the reachable states are the states of the real loop: every outcome of run_flat that comes out of the loop
+   is the Finish of a reachable state (or the model's loop fuel ran out in a reachable state) *)
+Theorem dag_outcome_from_reachable_state : forall V St (ops : vops V) g exec sub sched p x s cs0 cs1 ready o s',
+  init_chans V g = Ok cs0 -> calc_next V ops g cs0 [(kSTART, x)] = Ok (cs1, ready) -> alookup kEND ready = None ->
+  run_flat V St ops exec sub sched p g x s = (o, s') ->
+  exists ls Rv, reach V St ops g exec sub sched p x s ls Rv
+    /\ (step V St ops exec sub sched p g ls = Finish o s' \/ (o = Fail [mkerr eLoopFuel] (ls_log V St ls) /\ s' = ls_st V St ls)).
+Proof. exact run_flat_reach. Qed.
+Print Assumptions dag_outcome_from_reachable_state.
+
+(* non-vacuity: the state of ex_dag on ex_input_c after two iterations: a (2) and c (4) executed, d (5) and
+   e (6) scheduled, b (3) skipped; d is triggered although its predecessor b is skipped *)
+Definition ex_nosub : nat -> path -> value -> unit -> outcome value * unit := fun _ _ _ s => (Fail [] [], s).
+Example reach_nonvacuous :
+  exists ls Rv, reach value unit tree_ops ex_dag (tree_exec []) ex_nosub sched_first [] ex_input_c tt ls Rv
+    /\ executed value unit [] ls 2 /\ executed value unit [] ls 4
+    /\ scheduled value unit ls 5 /\ scheduled value unit ls 6
+    /\ skipped value (ls_chans value unit ls) 3
+    /\ triggered value unit ex_dag ls Rv 5
+    /\ akeys Rv = [kSTART; 2; 4]
+    /\ NoDup (map n_key (g_nodes ex_dag)).
+Proof.
+  eexists _, _. split.
+  - eapply reach_step; [eapply reach_step; [eapply reach_init|]|]; vm_compute; reflexivity.
+  - split; [vm_compute; tauto|]. split; [vm_compute; tauto|]. split; [vm_compute; tauto|]. split; [vm_compute; tauto|].
+    split; [eexists; split; vm_compute; reflexivity|].
+    split.
+    + eexists. split; [vm_compute; reflexivity|]. split; [reflexivity|].
+      intros q [Hq|Hq]; vm_compute in Hq.
+      * destruct Hq as [<-|[<-|[]]]; [right; eexists; split; vm_compute; reflexivity|left; vm_compute; tauto].
+      * destruct Hq as [<-|[<-|[]]]; [right; eexists; split; vm_compute; reflexivity|left; vm_compute; tauto].
+    + split; [vm_compute; reflexivity|]. vm_compute. repeat constructor; simpl; intuition discriminate.
+Qed.
+
+(* ---------------------------------------------------------------------------------------------------
+   Cycle rejection (compose/graph.go validateDAG, modelled in Model/DagValidate.v and tied to Compile by
+   Corr/C02.v: every forest that compiled is accepted by validate_dag, every forest that Compile rejected
+   with "DAG invalid ... has loop" is rejected by it). *)
+Theorem validateDAG_sound : forall g,
+  validate_dag g = true ->
+  exists rank : key -> nat,
+    forall n m, In n (real_nodes g) -> In m (real_nodes g) -> is_cpred n (n_key m) = true ->
+                (rank (n_key n) < rank (n_key m))%nat.
+Proof. exact validate_dag_sound. Qed.
+Print Assumptions validateDAG_sound.
+
+Example validateDAG_nonvacuous :
+  validate_dag ex_dag = true /\ validate_dag (skip_chain 12) = true
+  /\ validate_dag {| g_nodes := [mk_node kSTART [2] [2] []; mk_node 2 [3] [3] []; mk_node 3 [2; kEND] [2; kEND] []];
+                     g_mode := Dag; g_eager := false; g_max := 0 |} = false.
+Proof. vm_compute. auto. Qed.
+
+(* ---------------------------------------------------------------------------------------------------
+   Findings, repaired in /repo; the pre-repair definitions are kept with machine-checked witnesses. *)
+
+(* F-C02 (91b08ee): without the up-front skip of unreachable nodes the orphan node 9 of ex_orphan is
+   executed in every superstep (twice in this run); with it, not at all *)
+Theorem orphan_v0_refuted :
+  ~ NoDup (executed_paths [] (outcome_log value (fst (run_flat_v0 tree_ops (tree_exec []) ex_nosub sched_first [] ex_orphan ex_input_b tt))))
+  /\ executed_paths [] (outcome_log value (fst (run_flat value unit tree_ops (tree_exec []) ex_nosub sched_first [] ex_orphan ex_input_b tt)))
+     = [[2]; [3]].
+Proof.
+  split; [|vm_compute; reflexivity].
+  vm_compute. intros H. inversion H as [|? ? _ H2]; subst. inversion H2 as [|? ? Hn _]; subst. apply Hn. simpl. tauto.
+Qed.
+Print Assumptions orphan_v0_refuted.
+
+(* F-C02b (fa983c2): the old work list of reportBranch re-queued a skipped node for every report: 2^12 - 1
+   entries for a chain of 12 skipped nodes (13 suffice), and no end at all on a data-only cycle *)
+Theorem skip_worklist_v0_refuted :
+  option_map snd (report_branch_v0 value (skip_chain 12) (100 * 1000)%nat 2 [3] (init_chans_v0 value (skip_chain 12))) = Some 4095%nat
+  /\ is_ok (report_branch value (skip_chain 12) 2 [3] (init_chans_v0 value (skip_chain 12))) = true
+  /\ report_branch_v0 value data_cycle (20 * 1000)%nat 2 [4] (init_chans_v0 value data_cycle) = None
+  /\ is_ok (report_branch value data_cycle 2 [4] (init_chans_v0 value data_cycle)) = true.
+Proof. vm_compute. auto. Qed.
+Print Assumptions skip_worklist_v0_refuted.
